@@ -8,7 +8,7 @@ UNITS = {
 
 UNITS["C03"] = [
     dict(test="TestC03_Tokens", quick=dict(checks=3000, shards=2), thorough=dict(checks=60000, shards=8)),
-    dict(test="TestC03_Edits", quick=dict(checks=60, shards=8, shrinktime="10s"), thorough=dict(checks=1200, shards=16)),
+    dict(test="TestC03_Edits", quick=dict(checks=40, shards=8, shrinktime="10s"), thorough=dict(checks=1200, shards=16)),
     dict(test="TestC03_Raw", quick=dict(checks=3000, shards=2), thorough=dict(checks=60000, shards=8)),
     dict(test="TestC03_Lists", quick=dict(checks=1500, shards=1), thorough=dict(checks=30000, shards=4)),
 ]
@@ -59,7 +59,33 @@ UNITS["C10"] = [
     dict(test="TestC10_Compose", quick=dict(checks=800, shards=3), thorough=dict(checks=20000, shards=16)),
 ]
 
+UNITS["C12"] = [
+    dict(test="TestC12_Tables", quick=dict(), thorough=dict()),
+    dict(test="TestC12_Regenerate", quick=dict(), thorough=dict()),
+    dict(test="TestC12_Generator", quick=dict(checks=40, shards=1), thorough=dict(checks=500, shards=4)),
+]
+
+UNITS["C13"] = [
+    dict(test="TestC13_Histories", race=True, crash_is_violation=True,
+         quick=dict(checks=60, shards=5, shrinktime="5s"), thorough=dict(checks=1500, shards=8, shrinktime="10s")),
+    dict(test="TestC13_Histories", race=True, crash_is_violation=True,
+         quick=dict(skip=True), thorough=dict(checks=1500, shards=8, shrinktime="10s", env={"GOMAXPROCS": "2"})),
+]
+
+UNITS["C14"] = [
+    dict(test="TestC14_Families", quick=dict(), thorough=dict(timeout=3000)),
+    dict(test="TestC14_RandomTrees", quick=dict(checks=400, shards=2), thorough=dict(checks=3000, shards=4)),
+]
+
+UNITS["C15"] = [
+    dict(test="TestC15_Offsets", quick=dict(checks=5000, shards=2), thorough=dict(checks=60000, shards=16)),
+]
+
 RULES = {
+    "C12": "the shipped id tables equal the SPDX JSON in cmd/ and the generator reproduces them byte for byte; table invariants",
+    "C13": "calls are pure: no argument mutation, no output, no history dependence, race-free under concurrency",
+    "C14": "cost is polynomial in input size (allocation and CPU growth laws along input families; absolute bound for short inputs)",
+    "C15": "error messages cite an offset and lexeme that are true of the caller's own string",
     "C06": "ExtractLicenses returns exactly the distinct terms of the expression, each canonical, a fix-point and self-satisfying",
     "C07": "the allowed list is a set and the verdict is monotone in it (metamorphic relations between related lists)",
     "C08": "X+ / X-or-later and X / X-only are interchangeable in every context (metamorphic substitution over every listed id)",
